@@ -107,6 +107,14 @@ def _read(data, access, dtype, tmpdir):
     return r + ([str(m.message) for m in w],)
 
 
+def _clean(msg):
+    """exception text without run-specific parts (temp dir names, object addresses)"""
+    import re
+
+    msg = re.sub(r"/[^\s'\"]*verif-[A-Za-z0-9_]+", "<tmp>", str(msg))
+    return re.sub(r"0x[0-9a-fA-F]+", "0x..", msg)[:300]
+
+
 class _Tmp:
     def __enter__(self):
         self.d = tempfile.mkdtemp(prefix="verif-")
@@ -138,9 +146,9 @@ def _compare(got, want, coding, channels, tags, header_count=None):
     if (header_count is not None and channels == 1 and got.shape == (header_count,)
             and want.shape[0] < header_count and first is not None and first >= len(w)):
         return ("truncated_mono_tail",
-                "%d samples present, header promises %d: returned shape %r (tail beyond the data "
-                "is not file content: %r...), expected shape %r" % (
-                    len(w), header_count, got.shape, g[len(w):len(w) + 4].tolist(), want.shape))
+                "%d samples present, header promises %d: returned shape %r (the tail beyond the "
+                "data is whatever np.empty held), expected shape %r" % (
+                    len(w), header_count, got.shape, want.shape))
     if first is not None or got.shape != want.shape:
         boundary = (READ // fs) * channels
         if READ % fs and first is not None and first >= boundary:
@@ -163,9 +171,12 @@ def _compare(got, want, coding, channels, tags, header_count=None):
 # ------------------------------------------------------------------ lattice
 
 
+THOROUGH = False
+
+
 def _counts(coding, channels):
     q = READ // (channels * sph.bytes_per_sample(coding))
-    return [1, q - 1, q, q + 1, 2 * q + 1, 3 * q]
+    return [1, q - 1, q, q + 1, 2 * q + 1, 3 * q] + ([2, 2 * q - 1, 2 * q, 3 * q + 1, 5 * q + 2] if THOROUGH else [])
 
 
 def _lattice_case(case, seed, tmpdir, cache=None):
@@ -187,7 +198,7 @@ def _lattice_case(case, seed, tmpdir, cache=None):
     tags = dict(_base_tags(coding, ch), sub="lattice")
     if r[0] == "exc":
         return core.violation(dict(tags, what="exception", exc=type(r[1]).__name__),
-                              "well-formed file raised %s: %s" % (type(r[1]).__name__, r[1]),
+                              "well-formed file raised %s: %s" % (type(r[1]).__name__, _clean(r[1])),
                               dict(case, kind="lattice")), "exc"
     c = _compare(r[1], want, coding, ch, tags)
     if c is not None:
@@ -238,7 +249,7 @@ def _g711_case(case, tmpdir):
     tags = dict(coding=coding, sub="g711_tables")
     if r[0] == "exc":
         return [core.violation(dict(tags, what="exception", exc=type(r[1]).__name__),
-                               "raised %s: %s" % (type(r[1]).__name__, r[1]), dict(case, kind="g711"))]
+                               "raised %s: %s" % (type(r[1]).__name__, _clean(r[1])), dict(case, kind="g711"))]
     got = r[1]
     if not isinstance(got, np.ndarray) or got.shape != want.shape:
         return [core.violation(dict(tags, what="shape"), "shape %r expected %r" % (
@@ -292,7 +303,7 @@ def _trunc_case(case, seed, tmpdir):
         "samples) %s" % (coding, ch, variant, count, nbytes, count * fs, present, access)
     if r[0] == "exc":
         return [core.violation(dict(tags, what="truncated_exception", exc=type(r[1]).__name__),
-                               "%s: raised %s: %s" % (where, type(r[1]).__name__, r[1]), case)], "exc"
+                               "%s: raised %s: %s" % (where, type(r[1]).__name__, _clean(r[1])), case)], "exc"
     viol = []
     if not r[2]:
         viol.append(core.violation(dict(tags, what="truncated_no_warning"),
@@ -365,7 +376,7 @@ def _fault_case(case, seed, tmpdir):
     if not isinstance(r[1], IOError):
         return [core.violation(dict(tags, what="header_fault_wrong_exception", exc=type(r[1]).__name__),
                                "%r: raised %s (%s) instead of IOError" % (
-                                   case, type(r[1]).__name__, r[1]), case)], type(r[1]).__name__
+                                   case, type(r[1]).__name__, _clean(r[1])), case)], type(r[1]).__name__
     return [], "IOError"
 
 
@@ -421,13 +432,14 @@ def _replay(case, seed):
 
 
 def subchecks(tier, seed):
-    thorough = tier == "thorough"
-    chans = list(range(1, 8)) + ([8, 9, 11, 16] if thorough else [])
+    global THOROUGH
+    thorough = THOROUGH = tier == "thorough"
+    chans = list(range(1, 8)) + (list(range(8, 17)) if thorough else [])
     lat = [(c, ch, v) for c in sph.CODINGS for ch in chans for v in sph.HEADER_VARIANTS]
     g = [(c, ch, o) for c in ("ulaw", "alaw") for ch in (1, 2, 4) for o in ("up", "down")]
     tr = []
     for c in sph.CODINGS:
-        for ch, count in ((1, 9), (2, 5), (3, 5)) + (((5, 3), (7, 3)) if thorough else ()):
+        for ch, count in ((1, 9), (2, 5), (3, 5)) + (((4, 4), (5, 3), (6, 3), (7, 3)) if thorough else ()):
             for v in ("h1024", "h2048") + (("extra2048",) if thorough else ()):
                 tr.append((c, ch, v, count, "all"))
         # two-read files cut around the read boundary (every channel count; the frame that
@@ -444,11 +456,12 @@ def subchecks(tier, seed):
         core.SubCheck(
             "lattice", lat, lambda p: _lattice(p, seed),
             "own-writer files decoded by read_signal(force_as='sph'); per point (coding, channels, "
-            "header layout) the inner loop is sample count in {1,q-1,q,q+1,2q+1,3q}, q=16384//frame "
+            "header layout) the inner loop is sample count in {1,q-1,q,q+1,2q+1,3q%s}, q=16384//frame "
             "bytes, x requested dtype {None,int16,uint8,int8,float32} x {stream,path}; exact "
-            "values, shape (n,) / (n,channels) and dtype; non-trivial = more than one 16384-byte read",
+            "values, shape (n,) / (n,channels) and dtype; non-trivial = more than one 16384-byte read" % (
+                ",2,2q-1,2q,3q+1,5q+2" if thorough else ""),
             axes=dict(coding=list(sph.CODINGS), channels=chans, header=list(sph.HEADER_VARIANTS),
-                      count="1,q-1,q,q+1,2q+1,3q", dtype=list(DTYPES), access=list(ACCESS)),
+                      count="1,q-1,q,q+1,2q+1,3q" + (",2,2q-1,2q,3q+1,5q+2" if thorough else ""), dtype=list(DTYPES), access=list(ACCESS)),
             replay=lambda case: _replay(case, seed)),
         core.SubCheck(
             "g711_tables", g, lambda p: _g711(p, seed),
@@ -461,7 +474,7 @@ def subchecks(tier, seed):
         core.SubCheck(
             "truncation", tr, lambda p: _trunc(p, seed),
             "every byte length 0..full-1 of the data section of small files (mono 9 samples, 2ch and "
-            "3ch 5 samples; 4 codings; 1024/2048 headers) and lengths around the read boundary of "
+            "3ch 5 samples, thorough also 4..7ch; 4 codings; 1024/2048 headers) and lengths around the read boundary of "
             "(2q+1)-sample files for every channel count: a warning is issued and exactly the whole "
             "samples present come back",
             axes=dict(coding=list(sph.CODINGS), channels_small=[1, 2, 3], channels_two_reads=chans,
